@@ -310,4 +310,23 @@ def Schema.refsOk (d : Schema) : Bool :=
     v.dimids.all (fun id => id < d.dims.length) &&
     (v.dimids.drop 1).all (fun id => !d.isRecDim id))
 
+/-- the begins of the variables of one kind (record variables if `wantRec`, fixed-size variables
+    otherwise) increase in definition order without overlap, the first not before `prev`;
+    the result is the end of the last one (`prev` if there is none) -/
+def Schema.chainFrom (d : Schema) (wantRec : Bool) : List Var → Nat → Option Nat
+  | [], prev => some prev
+  | v :: vs, prev =>
+    if d.isRecVar v != wantRec then d.chainFrom wantRec vs prev
+    else if v.begin < prev then none
+    else d.chainFrom wantRec vs (v.begin + d.varLen v)
+
+/-- a layout every classic reader must accept: valid dimension references, the record dimension
+    only as first dimension, variables of at most 2^31-4 bytes (the limit common to the three
+    formats), fixed-size variables after the header (of `hdrLen` bytes) in definition order without
+    overlap, then the record variables likewise.  Gaps are allowed anywhere; vsize is not mentioned. -/
+structure Schema.LayoutValid (d : Schema) (hdrLen : Nat) : Prop where
+  refs  : ∀ v ∈ d.vars, (∀ id ∈ v.dimids, id < d.dims.length) ∧ (∀ id ∈ v.dimids.drop 1, d.isRecDim id = false)
+  small : ∀ v ∈ d.vars, d.nelems v * v.xtype.size ≤ 2147483644
+  order : ∃ e, d.chainFrom false d.vars hdrLen = some e ∧ ∃ e', d.chainFrom true d.vars e = some e'
+
 end PnVerif.Spec
